@@ -39,14 +39,16 @@ func VerifyCar(file string) error {
 		if err != nil {
 			return err
 		}
-		lengthToIndex := carv2.PragmaSize + carv2.HeaderSize + rx.Header.DataSize
+		// The data payload starts at DataOffset (there may be padding after the header), and an
+		// IndexOffset of zero means that there is no index at all.
+		lengthToIndex := rx.Header.DataOffset + rx.Header.DataSize
 		if uint64(flen.Size()) > lengthToIndex && rx.Header.IndexOffset == 0 {
 			return fmt.Errorf("header claims no index, but extra bytes in file beyond data size")
 		}
 		if rx.Header.DataOffset < carv2.PragmaSize+carv2.HeaderSize {
 			return fmt.Errorf("data offset places data within carv2 header")
 		}
-		if rx.Header.IndexOffset < lengthToIndex {
+		if rx.Header.IndexOffset != 0 && rx.Header.IndexOffset < lengthToIndex {
 			return fmt.Errorf("index offset overlaps with data. data ends at %d. index offset of %d", lengthToIndex, rx.Header.IndexOffset)
 		}
 	}
